@@ -305,6 +305,29 @@ func (env *Env) evalIdent(name string) CV {
 			}
 		}
 	}
+	// a specification written in another package of the repository (e.g. the time package's zone-cache invariant,
+	// needed by a caller in package null): a package-level variable that is unique by name in the module
+	var found *ssa.Global
+	var paths []string
+	for path := range r.e.repoPkgs {
+		paths = append(paths, path)
+	}
+	sort.Strings(paths)
+	for _, path := range paths {
+		if sp := r.e.ssaPkgs[path]; sp != nil {
+			if g, ok := sp.Members[name].(*ssa.Global); ok {
+				if found != nil {
+					found = nil
+					break
+				}
+				found = g
+			}
+		}
+	}
+	if found != nil {
+		t := found.Type().(*types.Pointer).Elem()
+		return CV{V: r.e.globalVal(found, nil, t), T: t}
+	}
 	panic(cerr("unknown identifier %q in %s", name, r.fn))
 }
 
@@ -1045,10 +1068,26 @@ func (env *Env) evalCall(e *Expr) CV {
 		}
 		var addr *Term
 		if a0 := e.Args[0]; a0.Kind == "ident" {
-			if _, isVar := env.lookup(a0.Name); !isVar && env.r.names[a0.Name] == nil && env.pkg != nil {
-				if sp := r.e.ssaPkgs[env.pkg.Path()]; sp != nil {
-					if g, ok := sp.Members[a0.Name].(*ssa.Global); ok {
-						addr = r.e.gaddr(g)
+			if _, isVar := env.lookup(a0.Name); !isVar && env.r.names[a0.Name] == nil {
+				if env.pkg != nil {
+					if sp := r.e.ssaPkgs[env.pkg.Path()]; sp != nil {
+						if g, ok := sp.Members[a0.Name].(*ssa.Global); ok {
+							addr = r.e.gaddr(g)
+						}
+					}
+				}
+				if addr == nil {
+					var paths []string
+					for path := range r.e.repoPkgs {
+						paths = append(paths, path)
+					}
+					sort.Strings(paths)
+					for _, path := range paths {
+						if sp := r.e.ssaPkgs[path]; sp != nil {
+							if g, ok := sp.Members[a0.Name].(*ssa.Global); ok && addr == nil {
+								addr = r.e.gaddr(g)
+							}
+						}
 					}
 				}
 			}
